@@ -152,6 +152,8 @@ struct Planted {
     hi: usize,
     kind: &'static str,
     in_expref: bool,
+    /// evaluated on a runtime with user-registered higher-order functions
+    custom: bool,
 }
 
 fn plant(src: &mut Src) -> Planted {
@@ -221,7 +223,14 @@ fn plant(src: &mut Src) -> Planted {
     let paren = at + marker.find('(').unwrap_or(marker.len() - 1);
     let (flo, fhi) = if kind == "InvalidSlice" { (at, at + marker.len() - 1) } else { (paren, paren) };
     let slice_fault = kind == "InvalidSlice";
-    let (pre, post, in_expref): (String, String, bool) = match src.below(15) {
+    let custom_route = src.chance(30);
+    let (pre, post, in_expref): (String, String, bool) = match if custom_route { 15 + src.below(3) } else { src.below(15) } {
+        // user-registered higher-order functions: `apply` evaluates the reference it is given
+        // (Expression::new on the text and runtime of the running search), `each` hands
+        // its arguments to the built-in map
+        15 => ("apply(&".into(), ", @)".into(), true),
+        16 => ("each(&".into(), ", xs)".into(), true),
+        17 => (format!("'{}' | apply(&", junk(src)), ", @)".into(), true),
         12 => {
             // a long single line in front of the fault (column thresholds)
             let n = src.size(400);
@@ -250,14 +259,50 @@ fn plant(src: &mut Src) -> Planted {
     };
     let _ = slice_fault;
     let text = format!("{}{}{}", pre, ftext, post);
-    Planted { lo: pre.len() + flo, hi: pre.len() + fhi, text, kind, in_expref }
+    Planted { lo: pre.len() + flo, hi: pre.len() + fhi, text, kind, in_expref, custom: custom_route }
+}
+
+/// Search on a runtime that has, besides the built-ins, two user-registered
+/// higher-order functions (the only ways user code can evaluate a reference).
+fn custom_search(text: &str, doc: &str) -> ImpOut {
+    use jmespath::{Context, Rcvar, Runtime, Variable};
+    let r = catch(std::panic::AssertUnwindSafe(|| {
+        let mut rt = Runtime::new();
+        rt.register_builtin_functions();
+        rt.register_function(
+            "apply",
+            Box::new(|args: &[Rcvar], ctx: &mut Context<'_>| match args.first().map(|a| &**a) {
+                Some(Variable::Expref(ast)) => jmespath::Expression::new(ctx.expression, ast.clone(), ctx.runtime).search(args.get(1).cloned().unwrap_or_else(|| Rcvar::new(Variable::Null))),
+                _ => Ok(Rcvar::new(Variable::Null)),
+            }),
+        );
+        rt.register_function(
+            "each",
+            Box::new(|args: &[Rcvar], ctx: &mut Context<'_>| match ctx.runtime.get_function("map") {
+                Some(f) => f.evaluate(args, ctx),
+                None => Ok(Rcvar::new(Variable::Null)),
+            }),
+        );
+        let e = match rt.compile(text) {
+            Ok(e) => e,
+            Err(err) => return ImpOut::CompileErr(crate::imp::classify(&err)),
+        };
+        match e.search(Variable::from_json(doc).unwrap()) {
+            Ok(v) => ImpOut::Ok(crate::shape::var_to_j(&v)),
+            Err(err) => ImpOut::SearchErr(crate::imp::classify(&err)),
+        }
+    }));
+    match r {
+        Ok(o) => o,
+        Err(p) => ImpOut::Panic(p),
+    }
 }
 
 fn planted(src: &mut Src, st: &mut Stats, _env: &Env) -> CaseResult {
     let p = plant(src);
     st.eval();
     let case = json!({"expression": p.text, "document": DOC, "planted_kind": p.kind, "planted_offset": [p.lo, p.hi]});
-    match search_text(&p.text, DOC) {
+    match if p.custom { custom_search(&p.text, DOC) } else { search_text(&p.text, DOC) } {
         ImpOut::SearchErr(e) => {
             if e.is_parse {
                 return Err(Failure::new("planted", "runtime-failure-as-parse-error", e.detail, case));
